@@ -12,7 +12,12 @@ _d = os.path.join(os.path.dirname(os.path.abspath(__file__)), "checks")
 for _f in sorted(glob.glob(os.path.join(_d, "*.py"))):
     _spec = importlib.util.spec_from_file_location("checks_" + os.path.basename(_f)[:-3], _f)
     _m = importlib.util.module_from_spec(_spec)
-    _spec.loader.exec_module(_m)
+    try:
+        _spec.loader.exec_module(_m)
+    except Exception as _e:  # a broken module must not take the other checks down with it
+        import sys
+        print("warning: check module %s not loaded: %s" % (_f, _e), file=sys.stderr)
+        continue
     for _name, _dst in (("TARGETS", TARGETS), ("CHECKS", CHECKS), ("CLAIMS", CLAIMS)):
         for _k, _v in getattr(_m, _name, {}).items():
             if _k in _dst:
